@@ -142,7 +142,15 @@ def check(case, ctx):
         # user-provided sources on some quantity inputs (given at construction, as a user would)
         spec = copy.deepcopy(spec)
         slots = [(n, a) for n in sorted(S.spec_reachable(spec)) for a in S.quantity_inputs(spec["objs"][n]["cls"])]
+        # text inputs (server type, technology, resolution, model...) and time zones carry sources too
+        text_slots = [(n, a) for n in sorted(S.spec_reachable(spec))
+                      for a in list(S.META[spec["objs"][n]["cls"]]["choices"]) +
+                      (["timezone"] if spec["objs"][n]["cls"] == "Country" else []) if a in spec["objs"][n]]
         for pick, src in case["sources"]:
+            if text_slots and pick % 3 == 0:
+                n, a = text_slots[(pick // 3) % len(text_slots)]
+                spec["objs"][n][a + "@source"] = list(src)
+                continue
             n, a = slots[pick % len(slots)]
             e = spec["objs"][n]
             val = e.get(a) or S.default_quantity(e["cls"], a)
